@@ -23,7 +23,7 @@ def do_replay(path):
 
 
 KNOWN_PRINTED = set()
-ENGINE_B_PROPS = {"C14", "C10", "C13", "C08", "C02", "C03", "C09", "C20", "C01", "C06", "C07", "C11", "C12"}
+ENGINE_B_PROPS = {"C14", "C10", "C13", "C08", "C02", "C03", "C09", "C20", "C01", "C06", "C07", "C11", "C12", "C04"}
 
 
 def engine_b_part(prop, tier):
@@ -60,10 +60,13 @@ def engine_b_part(prop, tier):
             if rep:
                 name, draws = rep
                 vals = [list(int(v).to_bytes(8, "little")) for v in draws]
+                # a twin of kind `pass` only makes calls that must return: any panic of the code under test
+                # (not a failed assumption of the twin) reproduces the violation, not just an oracle failure
+                twin_kind = next((h.kind for h in catalog.CATALOG if h.name == name), "pass")
                 for profile in ("release", "debug"):
                     out = runner.native_replay(name, vals, profile)
                     runs.append(out)
-                    if (out["outcome"] == "ok" and "returned" in out.get("covered", "")) or (out["outcome"] == "panic" and "ORACLE" in out["detail"]) or out["outcome"] == "crash":
+                    if (out["outcome"] == "ok" and "returned" in out.get("covered", "")) or (out["outcome"] == "panic" and ("ORACLE" in out["detail"] or twin_kind == "pass")) or out["outcome"] == "crash":
                         reproduced = True
             rpath = os.path.join(runner.REPLAYS, f"{prop}-{tag.replace(':', '-')}.json")
             json.dump({"property": prop, "engine": "B (MIR->SMT)", "kernel": r["kernel"], "semantics": r["semantics"], "function": s_["function"],
